@@ -28,6 +28,7 @@ MAX = int(next((a.split("=")[1] for a in ARGS if a.startswith("--max=")), "600")
 SEED = int(next((a.split("=")[1] for a in ARGS if a.startswith("--seed=")), "1"))
 OUT = next((a.split("=")[1] for a in ARGS if a.startswith("--out=")), "/tmp/dbg/sweep.jsonl")
 ONLY = next((a.split("=")[1] for a in ARGS if a.startswith("--files=")), "")
+OPS = next((a.split("=")[1] for a in ARGS if a.startswith("--ops=")), "")
 
 
 def sh(cmd, cwd=None, timeout=300):
@@ -146,6 +147,8 @@ def main():
         trees[rel] = tree
         for path, op, line, fn in sites(tree):
             if fn in (None, "__str__", "__repr__", "display", "trace", "dump_symbol_map", "_dump_symbols", "to_representation", "to_canonical"):
+                continue
+            if OPS and op not in OPS.split(","):
                 continue
             cands.append((rel, path, op, line, fn))
     random.shuffle(cands)
